@@ -247,11 +247,9 @@ def layout(items, extra_sheets=None, sheet='S', first_row=1):
     return sheets, bases
 
 
-def eval_items(items, extra_sheets=None, safety=False, overrides=None, stats=None, sheet='S'):
-    """Evaluate formula items in one workbook, bisecting on translation/load failure.
-
-    Returns list (per item) of dict addr_template -> (outcome, value_or_detail).
-    overrides: optional callable(item) -> list of (addr_template, value) applied through set_cells."""
+def compile_items(items, extra_sheets=None, safety=False, stats=None, sheet='S', batch=200):
+    """Translate + load formula items batch-wise, bisecting on failure.
+    Returns per item ('OK', cls, base_row) or (failure outcome, detail, None)."""
     if stats is None:
         stats = {}
     res = [None] * len(items)
@@ -260,33 +258,49 @@ def eval_items(items, extra_sheets=None, safety=False, overrides=None, stats=Non
         sub = [items[i] for i in idx]
         sheets, bases = layout(sub, extra_sheets, sheet)
         stats['translations'] = stats.get('translations', 0) + 1
+        stats['transitions'] = stats.get('transitions', 0) + 1
         kind, text = translate(sheets, safety=safety)
         if kind == 'TEXT':
             kind2, cls, _ = load_class(text)
-            stats['loads'] = stats.get('loads', 0) + 1
             if kind2 != 'CLASS':
                 kind, text = kind2, cls
         if kind != 'TEXT':
             if len(idx) == 1:
-                res[idx[0]] = {a: (kind, text) for a in items[idx[0]]['f']}
+                res[idx[0]] = (kind, text, None)
             else:
                 mid = len(idx) // 2
                 run(idx[:mid])
                 run(idx[mid:])
             return
-        ex = new_executor(cls)
         for i, base in zip(idx, bases):
-            it = items[i]
-            if overrides is not None or it.get('ov'):
-                ex = new_executor(cls)
-                ovs = list(it.get('ov', {}).items()) + (list(overrides(it)) if overrides else [])
-                ex.set_cells([Cell(sheet, *split_a1(_subst(a, base)), value=v) for a, v in ovs])
-            out = {}
-            for a in it['f']:
-                stats['evaluations'] = stats.get('evaluations', 0) + 1
-                out[a] = eval_cell(ex, sheet, *split_a1(_subst(a, base)))
-            res[i] = out
+            res[i] = ('OK', cls, base)
 
-    for s in range(0, len(items), 200):
-        run(list(range(s, min(s + 200, len(items)))))
+    for s in range(0, len(items), batch):
+        run(list(range(s, min(s + batch, len(items)))))
     return res
+
+
+def eval_compiled(comp, item, ov=None, stats=None, sheet='S', addrs=None):
+    """Evaluate the formula cells of one compiled item under an optional override list [(addr_template, value)]."""
+    kind, cls, base = comp
+    addrs = list(item['f']) if addrs is None else addrs
+    if kind != 'OK':
+        return {a: (kind, cls) for a in addrs}
+    ex = new_executor(cls)
+    if ov:
+        ex.set_cells([Cell(sheet, *split_a1(_subst(a, base)), value=v) for a, v in ov])
+    out = {}
+    for a in addrs:
+        if stats is not None:
+            stats['evaluations'] = stats.get('evaluations', 0) + 1
+            stats['transitions'] = stats.get('transitions', 0) + 1
+        out[a] = eval_cell(ex, sheet, *split_a1(_subst(a, base)))
+    return out
+
+
+def eval_items(items, extra_sheets=None, safety=False, stats=None, sheet='S'):
+    """Evaluate formula items (item['ov'] = optional {addr_template: value} overrides).
+    Returns list (per item) of dict addr_template -> (outcome, value_or_detail)."""
+    comps = compile_items(items, extra_sheets, safety, stats, sheet)
+    return [eval_compiled(c, it, list(it['ov'].items()) if it.get('ov') else None, stats, sheet)
+            for c, it in zip(comps, items)]
